@@ -54,3 +54,21 @@ M("c17-inplace-new-object", "C17", "core/array.py", "            kwargs[\"out\"]
 M("c17-isub-no-conversion", "C17", "core/array.py", "        return _binary_op(np.subtract, self, other, out=self)", "        return _binary_op(np.subtract, self, other, strict=False, out=self) if getattr(other, 'ndim', 0) else _binary_op(np.subtract, self, other, out=self)", "-= with an incompatible array operand silently subtracts raw numbers")
 M("c17-itruediv-float32", "C17", "core/array.py", "        if np.issubdtype(result.dtype, np.number):", "        if np.issubdtype(result.dtype, np.number) and not (func.__name__ in ('divide', 'true_divide') and 'out' in kwargs and result.dtype == np.float32):", "unit dropped only for float32 in-place division")
 M("c17-dataset-copy-deep", "C17", "core/dataset.py", "        out = self.__class__(**dict(self.items()))", "        out = self.__class__(**{k: g.copy() for k, g in self.items()})", "Dataset.copy copies its groups")
+
+# ---------------------------------------------------------------- C01
+M("c01-read-ghost-domains", "C01", "io/loader.py", "if domain == cpu_num - 1:", "if domain <= cpu_num - 1:", "cells of lower-numbered domains (ghost copies) are read too")
+M("c01-stepover-records", "C01", "io/amr.py", 'self.offsets["n"] += 4 + 3 * twotondim + 3 * ndim', 'self.offsets["n"] += 4 + 3 * twotondim + 2 * ndim', "step_over miscounts records of a skipped domain")
+M("c01-numbl-no-transpose", "C01", "io/amr.py", '            .reshape(info["levelmax"], info["ncpu"])\n            .T\n', '            .reshape(info["ncpu"], info["levelmax"])\n', "numbl read row-major")
+M("c01-child-offset-sign", "C01", "io/amr.py", "self.xcent[ind, 1] = (float(iy) - 0.5) * self.dxcell", "self.xcent[ind, 1] = (0.5 - float(iy)) * self.dxcell", "y child offset mirrored")
+M("c12-leaf-rule", "C12", "io/amr.py", 'ilevel < info["lmax"] - 1', 'ilevel <= info["lmax"] - 1', "refined cells of the finest level are not treated as leaves")
+M("c01-energy-exponent", "C01", "config/defaults.py", 'energy = unit_d * ((unit_l / unit_t) ** 2) * units("erg / cm**3")', 'energy = unit_d * ((unit_l / unit_t) ** 1) * units("erg / cm**3")', "pressure scaled with v instead of v^2")
+M("c01-drop-unit-magnitude", "C01", "io/reader.py", '                    * item["unit"].magnitude\n                )\n            else:', '                    * 1.0\n                )\n            else:', "hydro/grav/rt values not scaled")
+M("c01-xbound-zero", "C01", "io/amr.py", "            float(int(nx / 2)),", "            0.0,", "x offset of boundary regions ignored")
+M("c01-noutput-header", "C01", "io/amr.py", 'self.offsets["d"] += 1 + 2 * noutput', 'self.offsets["d"] += 1 + noutput + min(noutput, 3)', "header walk wrong for noutput > 3")
+M("c01-glob-unsorted", "C01", "io/utils.py", 'filelist = sorted(glob.glob(os.path.join(path, "output*")))', 'filelist = glob.glob(os.path.join(path, "output*"))', "nout=-1 depends on directory listing order")
+M("c01-boundary-header", "C01", "io/amr.py", '            self.offsets["n"] += 2\n\n        # Determine bound key precision', '            self.offsets["n"] += 2 if self.meta["nboundary"] < 3 else 3\n\n        # Determine bound key precision', "record count off with 3 boundary regions")
+M("c01-key-size", "C01", "io/amr.py", '        self.offsets["s"] += key_size\n', '        self.offsets["s"] += 8 * (info["ncpu"] + 1)\n', "assumes 8-byte bound keys")
+M("c01-mass-dx2", "C01", "config/defaults.py", 'data["mesh"]["density"] * data["mesh"]["dx"] ** 3', 'data["mesh"]["density"] * data["mesh"]["dx"] ** 2 * data["mesh"]["dx"].max()', "cell mass uses the largest dx for one factor")
+M("c01-vector-merge-order", "C01", "io/utils.py", "**{components[c]: data[comp_list[c]] for c in range(ndim)}", "**{components[c]: data[comp_list[(c + (1 if ndim == 3 and key.startswith('B_') else 0)) % ndim]] for c in range(ndim)}", "B components rotated when assembled")
+M("c01-grav-header", "C01", "io/grav.py", '        self.offsets["i"] += 4\n        self.offsets["n"] += 4', '        self.offsets["i"] += 4\n        self.offsets["n"] += 4 if info["ndim"] == 3 else 5', "gravity header miscounted for ndim < 3")
+M("c01-level-dx", "C01", "io/amr.py", "self.dxcell = 0.5 ** (ilevel + 1)", "self.dxcell = 0.5 ** (ilevel + 1) if ilevel < 6 else 0.5 ** ilevel", "cell size wrong from level 7 on")
